@@ -19,7 +19,6 @@ NOTES = ("Every check is solver-based (DESIGN.md): Engine K = Kani/CBMC over the
          "counterexample that did not reproduce natively); it is never reported as success or as a violation. Known findings: known_findings.txt.")
 
 NOT_APPLICABLE = {
-    "C07": "not built yet",
     "C16": "not built yet",
     "C17": "not built yet",
     "C19": "harnesses under construction (not yet registered)",
@@ -119,6 +118,14 @@ PROPS = {
         "sector, for an input where code and definition differ by more than the tolerance; both the SIMD (mask) and the scalar code path.",
         "Trusted: z3; the transcriptions in symx/src/reference (each cites its source); transcendental functions are shared "
         "uninterpreted symbols, so the check decides everything around them (arguments, exponents, thresholds, branch structure)."),
+    "C07": sprop(
+        "Symbolic execution of the real conversion / operator / blend / difference code records every partial operation it executes "
+        "(division, square root, logarithm, power, asin/acos) together with the lazy_select guard (SIMD path) or decision path (scalar "
+        "path) it is executed under; z3 decides for ALL colours of the documented range - each component on a bound, exactly zero, or "
+        "1e-9 x range away from it - that the operation is defined (non-zero divisor, bounded quotient, non-negative radicand ...). "
+        "A model is replayed natively and counts only if a result component is NaN or infinite in f32 and f64.",
+        "Trusted: z3. Real-arithmetic definedness: NaN produced by rounding alone (a radicand that is >= 0 in the reals but negative "
+        "after cancellation) is outside the claim; the cusp-search spaces (Okhsl/Okhsv/HSLuv) and CAM16 are not covered."),
     "C08": sprop(
         "Symbolic execution of the real Blend / Compose / Premultiply code (PreAlpha, Alpha and opaque forms, LinSrgb) and an "
         "independent transcription of the W3C Compositing and Blending formulas in the same term arena; z3 decides for ALL colours and "
